@@ -439,6 +439,29 @@ fn run(e: &Engine) {
     e.require_fraction("multi-dimensional spec", "well-formed channel list", 0.25);
     e.require_fraction("has range", "verdict: well-formed", 0.25);
     e.require_fraction("verdict: listed corruption", "verdict: well-formed", 0.2);
+    // sizes at 2^8 and 2^16: that many entries / ranges / dimensions, and zero-padded numbers of every width up to 300
+    if !cfg!(debug_assertions) {
+        let mut big: Vec<Case> = Vec::new();
+        let rep = |pre: &str, item: &str, n: usize, post: &str| -> B { B(format!("{pre}{}{post}", item.repeat(n)).into_bytes()) };
+        for n in [255usize, 256, 257, 65_535, 65_536, 65_537, 70_000] {
+            big.push(Case { channel: false, text: rep("", "1,", n, "2") });
+            big.push(Case { channel: false, text: rep("", "1:2,", n, "-3.5e2") });
+            big.push(Case { channel: true, text: rep("@", "1,", n, "2") });
+            big.push(Case { channel: true, text: rep("@", "1!2:3!4,", n, "5!6") });
+            big.push(Case { channel: true, text: rep("@", "'p',", n, "7") });
+            big.push(Case { channel: false, text: rep("", "1,", n, ",2") });
+            big.push(Case { channel: true, text: rep("@", "1,", n, "2:3:4") });
+        }
+        for n in [255usize, 256, 257, 300] {
+            big.push(Case { channel: true, text: rep("@", "1!", n, "2") });
+        }
+        for w in 1..=300usize {
+            let z = "0".repeat(w);
+            big.push(Case { channel: true, text: B(format!("@{z}7,{z}1!{z}12:-{z}2!+{z}3").into_bytes()) });
+            big.push(Case { channel: false, text: B(format!("{z}7,-{z}1.5:{z}2e{z}1").into_bytes()) });
+        }
+        e.fixed("sizes-at-2^8-2^16-and-padded-numbers", big, check);
+    }
     // exhaustive: all strings over the list alphabet, as numeric list and (with @ prefix semantics) channel list
     let max_len = e.tier.pick(6, 8);
     let p = Partitioned { alpha: LIST_ALPHABET, max_len, prefix_len: 2 };
